@@ -26,6 +26,7 @@ type Region struct {
 	fresh   bool // allocated during the activation under verification
 	global  bool
 	ronly   bool // read-only ghost region (string literals etc.)
+	opaque  bool // object of a dependency type: only its ghost state is modelled
 	ghostBytes *SliceVal // parsed OID values remember their content octets
 	family     types.Type // slice of pointers: pointee type of the element family (elements are lazily symbolic objects)
 	aliasPtr   *PtrVal    // alias variant: element aliasIdx of the family is this object
@@ -71,6 +72,8 @@ type IfaceVal struct {
 	val   Value
 	tag   string // identity tag for error sentinels
 	tagT  *Term  // symbolic identity (Int) when unknown
+	notDyn []types.Type // dynamic types excluded for a symbolic interface value
+	obj   string // ghost object identity of a symbolic interface value (streams, hash objects)
 }
 
 type FuncVal struct {
